@@ -13,7 +13,9 @@
 (* One state per tree (grown node by node); the invariant prints each tree with the expected           *)
 (* observation of every query path.                                                                     *)
 EXTENDS Integers, Sequences, FiniteSets, TLC, Json, SequencesExt, FiniteSetsExt
-CONSTANTS NN,           \* names are 1..NN; segment 0 is ".."
+CONSTANTS FlawNoHopBound,        \* TRUE: the pinned code (a symlink loop recurses without bound); repaired by a fix: commit
+          FlawStatelessHandle,   \* TRUE: the pinned code (ReadDir keeps no position, no io.EOF); repaired by a fix: commit
+          NN,           \* names are 1..NN; segment 0 is ".."
           MaxNodes,     \* files + directories + symlinks in a tree (the root not counted)
           MaxDepth,     \* longest node path
           QLen,         \* query paths: every sequence of names of length 0..QLen
@@ -93,7 +95,7 @@ AlgoOpen(t, path, fuel) ==
   ELSE IF k = "f" THEN "file"
   ELSE IF k = "d" THEN "dir"
   ELSE IF t[path].t.abs THEN "abs"
-  ELSE IF fuel = 0 THEN "crash"                       \* unbounded recursion in the code
+  ELSE IF fuel = 0 THEN (IF FlawNoHopBound THEN "crash" ELSE "loop")   \* pinned code: unbounded recursion; repaired: a hop bound
   ELSE AlgoOpen(t, LexJoin(Parent(path), t[path].t.segs), fuel - 1)
 Fuel == 2 * MaxNodes + 2
 ErrClass(k) == IF k \in {"noent", "notdir", "esc"} THEN "noent" ELSE k
@@ -107,8 +109,8 @@ HandleSpec(n, calls, off) ==
            cnt == IF k <= 0 THEN n - off ELSE IF n - off < k THEN n - off ELSE k
            eof == k > 0 /\ cnt = 0
        IN <<[cnt |-> cnt, from |-> off, eof |-> eof]>> \o HandleSpec(n, Tail(calls), off + cnt)
-\* algorithm level: dir.ReadDir keeps no state
-HandleAlgo(n, calls) == [i \in 1..Len(calls) |->
+\* algorithm level: the pinned dir.ReadDir keeps no state (FlawStatelessHandle); repaired: an offset, as the property has it
+HandleAlgo(n, calls) == IF ~FlawStatelessHandle THEN HandleSpec(n, calls, 0) ELSE [i \in 1..Len(calls) |->
    [cnt |-> IF calls[i] <= 0 THEN n ELSE IF n < calls[i] THEN n ELSE calls[i], from |-> 0, eof |-> FALSE]]
 
 \* ---------------- machines
